@@ -166,10 +166,26 @@ func schemaFromSDL(sdl string) (s *Schema, err error) {
 	if perr != nil {
 		return nil, perr
 	}
-	if len(doc.Extensions) > 0 || len(doc.SchemaExtension) > 0 {
-		return nil, fmt.Errorf("document contains extensions")
+	// type extensions are merged into their definitions: the spec form describes the resulting type system
+	for _, x := range doc.Extensions {
+		def := doc.Definitions.ForName(x.Name)
+		if def == nil || def.Kind != x.Kind {
+			return nil, fmt.Errorf("extension of unknown type %s", x.Name)
+		}
+		def.Directives = append(def.Directives, x.Directives...)
+		def.Interfaces = append(def.Interfaces, x.Interfaces...)
+		def.Fields = append(def.Fields, x.Fields...)
+		def.Types = append(def.Types, x.Types...)
+		def.EnumValues = append(def.EnumValues, x.EnumValues...)
 	}
-	s = &Schema{Types: []TypeDef{}, Dirs: []DirDef{}}
+	if len(doc.SchemaExtension) > 0 && len(doc.Schema) != 1 {
+		return nil, fmt.Errorf("schema extension without schema definition")
+	}
+	for _, x := range doc.SchemaExtension {
+		doc.Schema[0].Directives = append(doc.Schema[0].Directives, x.Directives...)
+		doc.Schema[0].OperationTypes = append(doc.Schema[0].OperationTypes, x.OperationTypes...)
+	}
+	s = &Schema{Types: []TypeDef{}, Dirs: []DirDef{}, STags: []string{}}
 	has := map[string]bool{}
 	for _, d := range doc.Definitions {
 		has[d.Name] = true
@@ -213,6 +229,7 @@ func schemaFromSDL(sdl string) (s *Schema, err error) {
 	}
 	if len(doc.Schema) == 1 {
 		s.SD = true
+		s.STags = tagsOf(doc.Schema[0].Directives)
 		s.Desc = normDesc(doc.Schema[0].Description)
 		for _, ot := range doc.Schema[0].OperationTypes {
 			switch ot.Operation {
